@@ -241,3 +241,117 @@ def save_replay(prop, kind, payload) -> Path:
     p = d / (hashlib.sha1(body.encode()).hexdigest()[:12] + ".json")
     p.write_text(body)
     return p
+
+
+# ---------------------------------------------------------------------------------------------
+# Path-based replay (for expensive real steps): enumerate root paths of the graph, choose a set that
+# covers every (state, action) pair, run them in parallel worker processes.
+
+def enumerate_paths(graph: Graph, max_len: int, limit: int = 200000):
+    """All maximal action-key sequences from the initial state up to max_len (DFS over candidate sets)."""
+    out = []
+
+    def rec(cands, seq):
+        if len(out) >= limit:
+            return
+        acts = sorted({a for n in cands for a in graph.out[n]})
+        if not acts or len(seq) >= max_len:
+            out.append(list(seq))
+            return
+        for a in acts:
+            nxt = {e["to"] for n in cands for e in graph.out[n].get(a, ())}
+            rec(nxt, seq + [a])
+    rec({graph.init}, [])
+    return out
+
+
+def pairs_of_path(graph: Graph, seq):
+    cands, ps = {graph.init}, set()
+    for a in seq:
+        for n in cands:
+            if a in graph.out[n]:
+                ps.add((n, a))
+        cands = {e["to"] for n in cands for e in graph.out[n].get(a, ())}
+    return ps
+
+
+def greedy_cover(graph: Graph, paths, rnd=None, max_paths=None, feat=None):
+    """Choose paths until every item that some path covers is covered (greedy set cover).  Items are
+    (state, action) pairs, or - with feat(state_dict, act_dict) -> iterable - abstract situation classes."""
+    cache = {}
+
+    def items(p):
+        ps = pairs_of_path(graph, p)
+        if feat is None:
+            return ps
+        out = set()
+        for n, a in ps:
+            if (n, a) not in cache:
+                cache[(n, a)] = frozenset(feat(json.loads(n), graph.out[n][a][0]["act"]))
+            out |= cache[(n, a)]
+        return out
+    cover = [(items(p), p) for p in paths]
+    if rnd:
+        rnd.shuffle(cover)
+    need = set().union(*[c for c, _ in cover]) if cover else set()
+    total = len(need)
+    chosen = []
+    while need and cover and (max_paths is None or len(chosen) < max_paths):
+        best = max(cover, key=lambda cp: len(cp[0] & need))
+        gain = best[0] & need
+        if not gain:
+            break
+        chosen.append(best[1])
+        need -= gain
+        cover.remove(best)
+    return chosen, {"items": total, "uncovered": len(need)}
+
+
+def walk(graph: Graph, adapter, seq):
+    """Execute one action-key sequence; returns (n_steps_done, pairs exercised, violation or None, acts)."""
+    cands, done, acts = {graph.init}, set(), []
+    for a in seq:
+        if not any(a in graph.out[n] for n in cands):
+            break
+        try:
+            oks = step(adapter, graph, cands, a)
+        except Mismatch as m:
+            act0 = next(graph.out[n][a][0]["act"] for n in sorted(cands) if a in graph.out[n])
+            return len(acts), done, {"path": acts + [act0], **m.info}, acts
+        for n, e in oks:
+            done.add((n, a))
+        acts.append(oks[0][1]["act"])
+        cands = {e["to"] for _, e in oks}
+    return len(acts), done, None, acts
+
+
+_G = {}
+
+
+def _run_one(i):
+    graph, paths, factory = _G["graph"], _G["paths"], _G["factory"]
+    ad = factory()
+    try:
+        n, done, viol, acts = walk(graph, ad, paths[i])
+    finally:
+        ad.cleanup()
+    return i, n, done, viol, acts
+
+
+def run_paths(graph: Graph, paths, adapter_factory, nproc=8):
+    import multiprocessing as mp
+    _G.update(graph=graph, paths=paths, factory=adapter_factory)
+    stats = {"pairs": len(graph.pairs()), "edges": graph.nedges, "nodes": len(graph.nodes), "paths": len(paths), "steps": 0}
+    viols, covered, samples = [], set(), []
+    ctx = mp.get_context("fork")
+    with ctx.Pool(min(nproc, max(1, len(paths)))) as pool:
+        for i, n, done, viol, acts in pool.imap_unordered(_run_one, range(len(paths))):
+            stats["steps"] += n
+            covered |= done
+            if viol:
+                viols.append(viol)
+            if len(samples) < 3 and len(acts) >= 2:
+                samples.append(acts[:6])
+    stats["pairs_exercised"] = len(covered)
+    stats["unreached_pairs"] = stats["pairs"] - len(covered)
+    return stats, viols, samples
